@@ -62,12 +62,13 @@ namespace DFS
 
       static const char labels[] = "ABCDEFGH";
       char label;
-      unsigned offset = 8;
       for (int i = 0; (label=labels[i]) != '\0'; ++i)
 	{
+	  // Each volume (present or not) has its own two-byte entry.
+	  const unsigned offset = 8u + 2u * static_cast<unsigned>(i);
 	  const unsigned int track = sector16[offset];
 	  if (track == 0)
-	    continue;
+	    continue;		// this volume is absent
 	  if (geom)
 	    {
 	      assert(geom->cylinders >= 0);
@@ -82,7 +83,6 @@ namespace DFS
 	    }
 	  auto start = DFS::safe_unsigned_multiply(track, sectors_per_track_);
 	  locations_.emplace_back(i*2, start, start, label);
-	  offset += 2u;
 	}
       std::sort(locations_.begin(), locations_.end());
       unsigned long next_sector = total_disc_sectors_;
